@@ -292,51 +292,69 @@ func (s *Updater) addBackOwnedItems(merged, pruned *typed.TypedValue, prunedVers
 	}
 	// Add back owned items at pruned version first to avoid conversion failure
 	// caused by pruned fields which are required for conversion.
-	if managed, ok := managedAtVersion[prunedVersion]; ok {
-		merged, pruned, err = s.addBackOwnedItemsForVersion(merged, pruned, prunedVersion, managed)
-		if err != nil {
-			return nil, err
-		}
-		delete(managedAtVersion, prunedVersion)
+	versions := make([]fieldpath.APIVersion, 0, len(managedAtVersion))
+	if _, ok := managedAtVersion[prunedVersion]; ok {
+		versions = append(versions, prunedVersion)
 	}
-	for version, managed := range managedAtVersion {
-		merged, pruned, err = s.addBackOwnedItemsForVersion(merged, pruned, version, managed)
-		if err != nil {
-			return nil, err
+	for version := range managedAtVersion {
+		if version != prunedVersion {
+			versions = append(versions, version)
+		}
+	}
+	// A field owned at one version may lie beneath a list item or map entry that
+	// is only owned at another version: it can only come back once that item is
+	// back. With more than one version, repeat the passes until nothing more is
+	// added back, so that the result does not depend on the order of the versions.
+	for changed := true; changed; {
+		changed = false
+		for _, version := range versions {
+			var added bool
+			merged, pruned, added, err = s.addBackOwnedItemsForVersion(merged, pruned, version, managedAtVersion[version])
+			if err != nil {
+				return nil, err
+			}
+			changed = changed || added
+		}
+		if len(versions) < 2 {
+			break
 		}
 	}
 	return pruned, nil
 }
 
 // addBackOwnedItemsForVersion adds back any fields, list and map items that were removed by prune with specific managed field path at a version.
-// It is an extracted sub-function from addBackOwnedItems for code reuse.
-func (s *Updater) addBackOwnedItemsForVersion(merged, pruned *typed.TypedValue, version fieldpath.APIVersion, managed *fieldpath.Set) (*typed.TypedValue, *typed.TypedValue, error) {
+// It is an extracted sub-function from addBackOwnedItems for code reuse. The boolean result tells whether anything was added back.
+func (s *Updater) addBackOwnedItemsForVersion(merged, pruned *typed.TypedValue, version fieldpath.APIVersion, managed *fieldpath.Set) (*typed.TypedValue, *typed.TypedValue, bool, error) {
 	var err error
 	merged, err = s.Converter.Convert(merged, version)
 	if err != nil {
 		if s.Converter.IsMissingVersionError(err) {
-			return merged, pruned, nil
+			return merged, pruned, false, nil
 		}
-		return nil, nil, fmt.Errorf("failed to convert merged object at version %v: %v", version, err)
+		return nil, nil, false, fmt.Errorf("failed to convert merged object at version %v: %v", version, err)
 	}
 	pruned, err = s.Converter.Convert(pruned, version)
 	if err != nil {
 		if s.Converter.IsMissingVersionError(err) {
-			return merged, pruned, nil
+			return merged, pruned, false, nil
 		}
-		return nil, nil, fmt.Errorf("failed to convert pruned object at version %v: %v", version, err)
+		return nil, nil, false, fmt.Errorf("failed to convert pruned object at version %v: %v", version, err)
 	}
 	mergedSet, err := merged.ToFieldSet()
 	if err != nil {
-		return nil, nil, fmt.Errorf("failed to create field set from merged object at version %v: %v", version, err)
+		return nil, nil, false, fmt.Errorf("failed to create field set from merged object at version %v: %v", version, err)
 	}
 	prunedSet, err := pruned.ToFieldSet()
 	if err != nil {
-		return nil, nil, fmt.Errorf("failed to create field set from pruned object at version %v: %v", version, err)
+		return nil, nil, false, fmt.Errorf("failed to create field set from pruned object at version %v: %v", version, err)
 	}
 	sc, tr := merged.Schema(), merged.TypeRef()
 	pruned = merged.RemoveItems(mergedSet.EnsureNamedFieldsAreMembers(sc, tr).Difference(prunedSet.EnsureNamedFieldsAreMembers(sc, tr).Union(managed.EnsureNamedFieldsAreMembers(sc, tr))))
-	return merged, pruned, nil
+	newSet, err := pruned.ToFieldSet()
+	if err != nil {
+		return nil, nil, false, fmt.Errorf("failed to create field set from pruned object at version %v: %v", version, err)
+	}
+	return merged, pruned, !newSet.Equals(prunedSet), nil
 }
 
 // addBackDanglingItems makes sure that the fields list and map items removed by prune were
